@@ -55,5 +55,8 @@ CLAIMS = {
     "C15": dict(category=MC, technique="TLA+ model of the take-or-clone scan checked by TLC on all occurrence patterns + replay with a clone-counting data type, TLC-judged",
                 text="All 5461 (quick) / 21845 (thorough) occurrence patterns of three variables and literals over <= 6/7 operands: FlatImpl.Consume never reads a moved-out slot; the real eval_vec/eval_iter results are identical to eval, contain no Default placeholder, and single-occurrence variables are never cloned; random larger expressions likewise.",
                 note="Trusted: TLC, the Counted wrapper of the recorder (clone counter per passed value)."),
+    "C04": dict(category=MC, technique="TLA+ variable rules (sorted distinct names, bare = braced) + TLC enumeration of name sequences replayed through 5 forms x 4 evaluation variants x all slice lengths with index-revealing values, TLC-judged",
+                text="Every text over the order-stressing name pool up to 3 (quick) / 4 (thorough) names: variable list = sorted distinct names in all five forms; strict evaluation succeeds exactly at the right length, relaxed from the right length on, never a panic; the k-th value is the term Var(name_k) so a wrong binding is visible in the value. Random expressions with up to 40 variables likewise.",
+                note="Trusted: TLC, Chars.StrLess as Rust's byte order on UTF-8 (= code point order). Derived-expression variable lists are judged in C09-C11."),
 }
 NOT_YET = {}
